@@ -11,7 +11,7 @@ from wormhole._dilation.connection import DilatedConnectionProtocol
 
 PROP = "C17"
 LEVEL = "exploration"
-QUICK_S = 45
+QUICK_S = 60
 THOROUGH_S = 900
 TECHNIQUE = ("deterministic simulation of two real wormholes (real mailbox "
              "server, real Terminator->Dilator->Manager->Connector->L2 chain, "
